@@ -88,7 +88,13 @@ pub fn start_determining_calling_process_in_thread() {
 
 // delta starts the process, so it is known.
 pub fn set_calling_process(args: &[String]) {
-    if let ProcessArgs::Args(result) = describe_calling_process(args) {
+    // A command which delta has no special handling for is known all the same: it is not
+    // whatever else the search of the process tree may come up with.
+    let result = match describe_calling_process(args) {
+        ProcessArgs::Args(result) => result,
+        _ => CallingProcess::None,
+    };
+    {
         let (caller_mutex, determine_done) = &**CALLER;
 
         #[cfg(dandavison_delta_verif)]
